@@ -64,6 +64,10 @@ type Expect struct {
 	LineHeight float64             `json:"line_height,omitempty"`
 	MarginTop  float64             `json:"margin_top,omitempty"`
 	MarginBottom float64           `json:"margin_bottom,omitempty"`
+	// PageMargins: expected [top right bottom left] margins by page kind: first | left | right | blank-left | blank-right
+	PageMargins map[string][4]float64 `json:"page_margins,omitempty"`
+	// FillPages (with orphans = widows = 1): a page that ends in the middle of a paragraph leaves less than one line unused
+	FillPages bool `json:"fill_pages,omitempty"`
 	// Paras: the paragraphs (word lists) that orphans/widows apply to, with the values
 	Paras   [][]string `json:"paras,omitempty"`
 	Orphans int        `json:"orphans,omitempty"`
